@@ -65,6 +65,10 @@ func typeProbes[T signal.SignalTypes](name string) func(ch, length int) []Probe 
 				*tight = *tight0
 				tight.Append(oneFrame)
 			}},
+			{Name: "pool-cycle-putting-a-shorter-slice-from-frame-0[" + name + "]", MaxPerRun: 1, Run: func() {
+				g := poolL.Get()
+				poolL.Put(g.Slice(0, length/2))
+			}},
 			{Name: "pool-cycle-through-copies-of-an-allocator-value[" + name + "]", Run: func() {
 				g1 := copies[0].Get()
 				g2 := copies[1].Get()
